@@ -126,7 +126,7 @@ func main() {
 
 	// KF1: a finding that is recorded, not repaired (the root cause is go/printer of the installed toolchain)
 	kfSrc := "package p\n\nfunc f(a bool) {\n\tif (a || Pair[int, string]{} == x) {\n\t}\n\tfor range (&Pair[int, string]{}.F) {\n\t}\n}\n"
-	kfWhat := "a parenthesised if/for/switch/range header expression that contains a composite literal of an instantiated generic type, e.g. `if (a || Pair[int, string]{} == x) {`: File.Render returns nil but gofmt (go/printer.stripParens of the installed toolchain, which only recognises identifiers and selectors as type names) removes the protecting parentheses and the output no longer parses; gofmt does the same to a hand-written file"
+	kfWhat := "a parenthesised if/for/switch/range header expression that contains a composite literal of an instantiated generic type, e.g. `if (a || Pair[int, string]{} == x) {`: File.Render returns nil but gofmt (go/printer.stripParens of the installed toolchain, which only recognises identifiers and selectors as type names) removes the protecting parentheses and the output no longer parses; gofmt does the same to a hand-written file. General form (internal/knownfind.GofmtBreaks): format.Source accepts the raw rendering and returns text that does not parse; a second shape is a single unnamed result that only parses inside parentheses, e.g. `func g(...T) (...T)`, whose parentheses go/printer drops"
 	fs = append(fs, finding{Property: "C01", ID: "KF1-gofmt-strips-parens-around-generic-composite-literal", Status: "known", What: kfWhat, Line: "known: property=C01 " + kfWhat,
 		Check: "known_finding_probe", Example: raw(map[string]interface{}{"name": "kf1.go", "src": kfSrc})})
 	kfBody := recipe.S().C("Func").C("Id", "f").C("Params", recipe.Id("a").C("Bool")).C("Block",
